@@ -322,6 +322,17 @@ def check_function(function, setup, call, clauses, *, mode, label="", bounded=Fa
                 out.append(ob(function, "returns-normally", plabel, status, mode=mode, bounded=bounded,
                               reason=f"unexpected {type(p.value).__name__}: {p.value}", path=p.cond_str(),
                               model=model, replayed=rep, trace=tb, backend="z3", seconds=round(m.seconds, 4)))
+    # optional CPython cross-check of the engine itself: every clause that was PROVED must also hold when the same
+    # harness runs on the real code with real NumPy/SciPy at sampled inputs; a failure means the symbolic execution
+    # (or a shim) misrepresents the code -- reported as undecided (exit 2), never as a verdict about the property
+    import os
+    ncc = int(os.environ.get("RVERIF_CROSSCHECK", "0") or 0)
+    if ncc and mode == "D" and out and all(o["status"] == "discharged" for o in out):
+        hit = native_sampling(setup, call, clauses, allow_exc, n=ncc, seed=__import__("zlib").crc32(label.encode()) % 100000)
+        stats["crosscheck_samples"] = ncc
+        if hit:
+            out.append(ob(function, hit["clause"], (label + "," if label else "") + "cpython-crosscheck", "undecided", mode=mode,
+                          bounded=True, reason=f"ENGINE CROSS-CHECK: clause proved on every symbolic path fails natively at {hit['inputs']}"))
     stats["wall"] = time.time() - t0
     if stats["feasible"] == 0:
         out.append(ob(function, "vacuity", label, "undecided", mode=mode, bounded=bounded,
